@@ -6,8 +6,12 @@ HARNESSES = [dict(name="upgrade", pkg="./pkg/upgrade/", test="TestVerifC18", tim
                   files=[("pkg/upgrade/zz_verif_c18_test.go", "harness/C18/zz_verif_c18_test.go")])]
 VARIANTS = ["repaired", "defective"]
 MODEL_NEEDS_IMPL = False
-RULE = ("history cases: an installed tree of 5 artifact paths (absent / regular with modes incl. setuid, setgid, sticky, 0 / "
-        "symlink / directory) at version 1, then 1-6 operations: apply of a freshly built signed tarball (1-4 artifacts, "
+RULE = ("history cases: an installed tree of 5 artifact paths (absent / regular incl. empty, modes incl. setuid, setgid, "
+        "sticky, 0 / symlink to a regular file outside the artifact dirs, to another artifact path, chains through "
+        "auxiliary symlinks, loops, to a directory, dangling / directory) plus 5 auxiliary nodes outside the artifact dirs; "
+        "tarballs additionally with duplicate member names (longer / shorter wrong body first or last), a member listed "
+        "twice in the manifest, empty members; observed per operation: lstat kind/content/mode of artifact and auxiliary "
+        "nodes, the bytes each artifact path RESOLVES to, tree / version / resolved-content monitors; initial version then 1-6 operations: apply of a freshly built signed tarball (1-4 artifacts, "
         "mode strings valid/empty/invalid, restart classes; predecessor none/right/wrong/malformed; signature ok/flipped "
         "byte/missing/wrong key/garbage; tamper none/digest mismatch/swapped members/../ , deep ../, absolute, symlink, "
         "hardlink members/missing source/tier B/no manifest/duplicate path; pre-hook none/bad digest/missing; "
@@ -37,19 +41,31 @@ CRASH_A = [25, 26, 27, 28, 29, 30, 31, 32, 35, 35, 33, 34, 1, 2, 3, 4, 5, 7, 8, 
 CRASH_R = [41, 42, 43, 44, 45, 11, 12, 13, 14, 15, 17, 18]
 MODES = ["0755", "0644", "755", "600", "4755", "e", "0750", "0"]
 FMODES = ["755", "644", "600", "4755", "2755", "1777", "6755", "750", "0", "444"]
-TAMS = ["dig0", "dig1", "swapm", "dotdot", "deepdot", "abs", "symlink", "hardlink", "nosrc", "tierb", "nomanifest"]
+TAMS = ["dig0", "dig1", "swapm", "dotdot", "deepdot", "abs", "symlink", "hardlink", "nosrc", "tierb", "nomanifest",
+        "dupl", "dups", "duplr", "dupsr", "dupman", "dupl", "dupman"]
+AUX = [100, 101, 102, 103, 104]   # node ids of files outside the artifact directories (symlink targets)
 SIGS = ["flip", "none", "wkey", "garb"]
 HEALTH = ["failed", "degraded", "invalid", "stale"]
 
 
+def link_target(rng, p):
+    """symlink target node: file outside the artifact dirs, another artifact path, or nothing (dangling)"""
+    r = rng.random()
+    if r < 0.5:
+        return rng.choice(AUX)
+    if r < 0.8:
+        return rng.choice([q for q in range(NP) if q != p] + [p] * (rng.random() < 0.1))
+    return 70 + p
+
+
 def fspec(rng, p):
     r = rng.random()
-    if r < 0.22:
+    if r < 0.18:
         return None
-    if r < 0.80:
-        return "r%d.%s" % (10 + p, rng.choice(FMODES))
+    if r < 0.62:
+        return "r%d.%s" % (0 if rng.random() < 0.04 else 10 + p, rng.choice(FMODES))
     if r < 0.92:
-        return "s%d" % (70 + p)
+        return "s%d" % link_target(rng, p)
     return "d"
 
 
@@ -59,6 +75,12 @@ def init_fs(rng):
         s = fspec(rng, p)
         if s:
             items.append("%d:%s" % (p, s))
+    for k, a in enumerate(AUX):
+        r = rng.random()
+        if r < 0.6:
+            items.append("%d:r%d.%s" % (a, 50 + k, rng.choice(["644", "755", "600"])))
+        elif r < 0.8:      # chains: auxiliary symlink to another auxiliary file or to an artifact path
+            items.append("%d:s%d" % (a, rng.choice([x for x in AUX if x != a] + list(range(NP)))))
     return ",".join(items) if items else "-"
 
 
@@ -85,7 +107,7 @@ def rand_arts(rng, gen):
     arts = []
     for p in ps:
         m = "b" if rng.random() < 0.05 else rng.choice(MODES)
-        arts.append((p, 20 + 10 * gen + p, m, rng.choice("oovbn")))
+        arts.append((p, 0 if rng.random() < 0.04 else 20 + 10 * gen + p, m, rng.choice("oovbn")))
     return arts
 
 
@@ -148,8 +170,10 @@ def rand_history(rng):
                 kw["prev"] = "%d%s" % (guess, rng.choice("fhg"))
             if rng.random() < 0.12:
                 kw["sig"] = rng.choice(SIGS)
-            if rng.random() < 0.15:
+            if rng.random() < 0.18:
                 kw["tam"] = rng.choice(TAMS)
+                if kw["tam"] == "dupman" and len(arts) >= 2:
+                    arts[1] = (arts[1][0], arts[0][1], arts[1][2], arts[1][3])
             if rng.random() < 0.07:
                 kw["hook"] = rng.choice("hm")
             if rng.random() < 0.08:
@@ -168,8 +192,9 @@ def rand_history(rng):
         elif r < 0.92:
             ops.append("clear")
         else:
-            p = rng.randrange(NP)
-            s = rng.choice(["x", "r%d.%s" % (90 + p, rng.choice(FMODES)), "s%d" % (80 + p)])
+            p = rng.choice(list(range(NP)) * 2 + AUX)
+            s = rng.choice(["x", "r%d.%s" % (90 + p % 100, rng.choice(FMODES)), "s%d" % (80 + p % 100),
+                            "s%d" % rng.choice(AUX + list(range(NP)))])
             ops.append("edit p=%d f=%s" % (p, s))
     return "h %d %s ; %s" % (v0, init_fs(rng), " ; ".join(ops))
 
@@ -218,6 +243,22 @@ def systematic():
         out.append("h 1 %s ; %s ; %s" % (fs0, mk_apply(2, a2, sig=sig), mk_apply(2, a2)))
     for pv in ["2o", "1f", "1h", "1g", "1o", "0o"]:
         out.append("h 1 %s ; %s ; %s" % (fs0, mk_apply(2, a2, prev=pv), mk_rollback()))
+    # installed artifacts of every kind x what happens after the swap loop: what the path RESOLVES to must come back
+    kinds = {"reg": "0:r10.4755", "link-out": "0:s100,100:r50.644", "link-art": "0:s3,3:r13.600",
+             "link-art-in-tarball": "0:s1,1:r11.644", "chain": "0:s101,101:s100,100:r50.755", "chain-art": "0:s101,101:s3,3:r13.644",
+             "dangling": "0:s70", "absent": "1:r11.644", "loop": "0:s2,2:s0", "link-dir": "0:s2,2:d", "dir": "0:d",
+             "link-empty": "0:s100,100:r0.644"}
+    al = [(0, 20, "0755", "o"), (1, 21, "0644", "n")]
+    for k, fsk in kinds.items():
+        for kw in (dict(ha="failed"), dict(fail=[8]), dict(fail=[3]), dict(ob=[(1, "o")]), dict(crash=30), dict(crash=35), dict()):
+            arts_k = al if k != "link-dir" else [(0, 20, "0755", "v"), (1, 21, "0644", "n")]
+            out.append("h 1 %s ; %s ; %s ; %s" % (fsk, mk_apply(2, arts_k, **kw), mk_rollback(), mk_rollback()))
+    # duplicate member names (both orders, longer / shorter), a member listed twice in the manifest, empty member
+    for tam in ("dupl", "dups", "duplr", "dupsr", "dupman"):
+        for c0 in (20, 0):
+            ad = [(0, c0, "0755", "o"), (1, c0 if tam == "dupman" else 21, "0644", "n")]
+            out.append("h 1 %s ; %s ; %s" % (fs0, mk_apply(2, ad, tam=tam), mk_rollback()))
+            out.append("h 1 %s ; %s" % (fs0, mk_apply(2, ad[:1], tam=tam, ha="failed")))
     # predecessor / ExpectedFrom comparison is exact: every ordered pair of the confusable version strings
     a1 = [(0, 20, "0755", "o")]
     for c in range(NVER):
@@ -317,6 +358,11 @@ def classify(case, impl, model):
         return "P", ("op #%d (%s) is reported as %s but current-manifest does not name the version of the installed "
                      "artifacts: impl=%r model=%r" % (k, ops[k].split()[0] if k < len(ops) else "?", fields(si[k])["res"],
                                                       si[k], sm[k] if k < len(sm) else ""))
+    for k, (a, b) in enumerate(zip(si, sm)):
+        fa, fb = fields(a), fields(b)
+        if fa.get("rm") == "MIXED" and fb.get("rm") != "MIXED":
+            return "P", ("op #%d is reported as %s but an artifact path no longer RESOLVES to its pre-upgrade bytes "
+                         "(kind / mode / link target may all look restored): impl=%r model=%r" % (k, fa["res"], a, b))
     if "MIXED" in impl and "MIXED" not in model:
         k = [i for i, s in enumerate(si) if "MIXED" in s][0]
         return "P", ("op #%d (%s) is reported as %s but the artifacts are a mixture / not the pre-upgrade state: impl=%r model=%r"
@@ -337,6 +383,9 @@ def classify(case, impl, model):
                        "the model refuses / fails it before any mutation")
                 return "P", ("apply at op #%d must leave the installed state untouched (%s) but the implementation went on: "
                              "impl=%r model=%r" % (k, why, a, b))
+            if fa.get("res") in ("ok", "rb:ok", "err:rolledback") and (fa.get("rv") != fb.get("rv") or fa.get("ax") != fb.get("ax")):
+                return "P", ("op #%d reported %s but what the artifact paths resolve to / the files outside the artifact "
+                             "directories differ from the model: impl=%r model=%r" % (k, fa.get("res"), a, b))
             if fa.get("res") in ("ok", "rb:ok", "err:rolledback") and fa.get("fs") != fb.get("fs"):
                 return "P", ("op #%d reported %s but the artifact tree differs from the all-new / restored tree: impl=%r model=%r"
                              % (k, fa.get("res"), a, b))
